@@ -14,6 +14,10 @@ CHECKS = {
          "NasSec.tla (COUNT, envelope, receiver estimate) is model-checked exhaustively with symbolic crypto and small counter widths (NthCount, CountFresh, receiver recovers, both wraps); recorded histories of the real protection entry point (all algorithm pairs, header types, resets, wraps at 2^8/2^16/2^24) must each be a NasSec!Protect step with the real algorithms, and a conformant receiver in the spec must verify and recover every message."),
  "C10": ("TLC-generated downlink histories (spec AMF) replayed into the real code, then trace validation with TLC",
          "The specification's AMF (GenNasDl: NasSec!Protect, DIRECTION=downlink) generates protected downlink histories with skips, wraps and new-context resets; they are replayed through tglib.NASDecode and every step must be NasSec!Unprotect: same plain message, COUNT estimate equal to the AMF's COUNT."),
+ "C03": ("TLA+ trace validation with TLC: X.691 ALIGNED PER encoder written in TLA+ (Per.tla) as oracle over typed value trees",
+         "Every value (all 78 NGAP message types, 24 transfer containers, exhaustive small primitive schemas at several bit offsets) that the real encoder handles is exported as a typed tree with its constraints; TLC evaluates Per!PerEncode on it and demands byte equality, and demands refusal for values violating their constraints."),
+ "C04": ("TLA+ trace validation with TLC: decoded tree = encoded tree, re-encode = reference bytes (Per.tla)",
+         "For the same generated values the real decoder's output tree must equal the encoded tree and the re-encoding must equal the bytes, which TLC has shown equal to the independent X.691 encoder's output (Per!PerEncode), so every such case is also a canonical encoding from an independent encoder."),
 }
 NA = {}
 def main():
